@@ -15,8 +15,39 @@ def _k3(limits):
         ('add', 'hi'),
         ('rm', 0), ('rm', 2), ('prio', 0, 100), ('prio', 2, 100),
         ('down', 's0'), ('up', 's0'), ('down', 's2'), ('up', 's2'),
+        ('rld',), ('noop',),
+    )
+    return cfg
+
+
+def _k11(limits):
+    """Two victims on one server and two instances of the limited affinity
+    arriving between two cycles: both reach the eviction path in ONE cycle
+    and look at the same server; the first uses the limit up."""
+    cfg = {
+        'buckets': [('pod:0', None, 'pod'), ('rack:0', 'pod:0', 'rack'),
+                    ('rack:1', 'pod:0', 'rack')],
+        'partitions': ['_default'],
+        'servers': {
+            's0': {'parent': 'rack:0', 'variants': [{'cap': [10, 10, 10]}]},
+            's1': {'parent': 'rack:1', 'variants': [{'cap': [4, 4, 4]}]},
+        },
+        'allocs': {'a': {'partition': '_default', 'variants': [{'rank': 100}]}},
+        'templates': {
+            'V': {'prio': 10, 'demand': [5, 5, 5], 'aff': 'v'},
+            'P': {'prio': 100, 'demand': [5, 5, 5], 'aff': 'lim',
+                  'limits': limits},
+            'Q': {'prio': 90, 'demand': [4, 4, 4], 'aff': 'lim',
+                  'limits': limits},
+        },
+        'max_apps': 5,
+    }
+    cfg['monitors'] = [cellmon.mon_c04]
+    cfg['events'] = cellcfg.ev(
+        ('add', 'P'), ('add', 'Q'), ('add', 'V'), ('rm', 0), ('rm', 2),
         ('noop',),
     )
+    cfg['seeds'] = [(('add', 'V', True), ('add', 'V', True))]
     return cfg
 
 
@@ -116,7 +147,9 @@ def configs(ctx):
             [('K3mv-pod2', _k3mv({'pod': 2}), 4, 0),
              ('K3mv-rack1cell2', _k3mv({'rack': 1, 'cell': 2}), 4, 0),
              ('K6-rack1', _k6({'rack': 1}), 3, 0),
-             ('K6-cell1', _k6({'cell': 1}), 3, 0)] + \
+             ('K6-cell1', _k6({'cell': 1}), 3, 0),
+             ('K11-rack1', _k11({'rack': 1}), 3, 2),
+             ('K11-pod1', _k11({'pod': 1}), 3, 2)] + \
             [('M6', _m6(), 4, 0, _masterprop.MasterSpec)]
     return [('K3-' + k, _k3(v), 6, 0) for k, v in LIMITS.items()] + \
         [('K3mv-pod2', _k3mv({'pod': 2}), 6, 0),
@@ -124,7 +157,10 @@ def configs(ctx):
          ('K3mv-pod1', _k3mv({'pod': 1}), 6, 0),
          ('K6-rack1', _k6({'rack': 1}), 5, 0),
          ('K6-pod1', _k6({'pod': 1}), 5, 0),
-         ('K6-cell1', _k6({'cell': 1}), 5, 0)] + \
+         ('K6-cell1', _k6({'cell': 1}), 5, 0),
+         ('K11-rack1', _k11({'rack': 1}), 5, 3),
+         ('K11-pod1', _k11({'pod': 1}), 5, 3),
+         ('K11-cell1', _k11({'cell': 1}), 5, 3)] + \
         [('M6', _m6(), 6, 0, _masterprop.MasterSpec)]
 
 
